@@ -44,7 +44,7 @@ def run(res, tier):
                 "other settings untouched. distinct by (geometry, sequence)")
     res.trusted += ["numpy/scipy determinism; the placement of points is a function of skeleton and settings only is *checked* here, not proved"]
     rng = vlib.rng("C15")
-    nseq = 11 if tier == "quick" else 36
+    nseq = 12 if tier == "quick" else 37
     cases = []
     fixed = [("cdn", {}, [{"nonorthogonal_target_all_poloidal_spacing_length": 0.3}, {"nonorthogonal_target_all_poloidal_spacing_length": 0.15},
                           {"nonorthogonal_xpoint_poloidal_spacing_range": 0.02}]),
@@ -62,7 +62,16 @@ def run(res, tier):
     FAIL = {"nonorthogonal_xpoint_poloidal_spacing_length": 0.5, "nonorthogonal_target_outer_lower_poloidal_spacing_length": 50.0, "__may_fail__": True}
     fixed += [("lsn", {}, [dict(FAIL), {}]),
               ("lsn", {}, [dict(FAIL), {"nonorthogonal_radial_range_power": 3.0}])]
-    for g, o0, seq in fixed:
+    # general (not non-orthogonal) settings from which defaults of non-orthogonal options are derived: the derived defaults must be the same
+    # after a redistribution as in a mesh built from scratch
+    GEN = {"target_all_poloidal_spacing_length": 0.3, "xpoint_poloidal_spacing_length": 0.1}
+    POC = "poloidal_orthogonal_combined"
+    fixed += [("cdn", {}, [{"nonorthogonal_spacing_method": POC}], GEN)]
+    general = {}
+    for c_ in fixed:
+        g, o0, seq = c_[:3]
+        if len(c_) > 3:
+            general[len(cases)] = dict(c_[3])
         cases.append((g, o0, seq))
     while len(cases) < nseq:
         g = rng.choice(["cdn", "cdn", "lsn", "ldn"]) if tier == "thorough" else rng.choice(["cdn", "cdn", "lsn"])
@@ -74,8 +83,9 @@ def run(res, tier):
             seq[rng.randrange(len(seq))]["nx_core"] = 5   # a setting that is not a nonorthogonal_* one
         cases.append((g, o0, seq))
     specs = []
-    for g, o0, seq in cases:
+    for kc_, (g, o0, seq) in enumerate(cases):
         base = {"orthogonal": False}
+        base.update(general.get(kc_, {}))
         kw = {"wall": W2} if g == "lsn" else {}
         a = dict(base)
         a.update(o0)
